@@ -92,6 +92,14 @@ func (r *run) bindCase(b *bootguard.BootGuard, descr map[string]interface{}, exp
 	// test: BPMKeyMatchKMHash); the BPM test alone must not report a match for
 	// another key either, nor without a hash it compared
 	want := *expectSame && !refused
+	// the concrete input of a failure: what the KM holds and the key element of the BPM
+	input := func() map[string]interface{} {
+		m := map[string]interface{}{"km_state": kmStateLit(b), "bpm_key_alg": keyalg, "bpm_key_data_hex": hexs(keydata), "bpm_key_bits": (len(keydata) - 4) * 8}
+		for k, v := range descr {
+			m[k] = v
+		}
+		return m
+	}
 	switch {
 	case binding == want && mt == want && hasO != oPanic && mtO != oPanic:
 		c.OracleOK()
@@ -99,19 +107,17 @@ func (r *run) bindCase(b *bootguard.BootGuard, descr map[string]interface{}, exp
 			c.Count("binding/refused-sha1-fails-closed")
 		}
 	case mt && !want:
-		c.OracleFail(idx, fmt.Sprintf("BPMKeyMatchKMHash reports a match although the BPM signer's key is not the key whose hash the KM holds as BPM key hash (same key = %v, hash recognised = %v, KMHasBPMHash = %v): a comparison was skipped and reported as a match", *expectSame, !refused, has), "bootguard.BPMKeyMatchKMHash", descr)
+		c.OracleFail(idx, fmt.Sprintf("BPMKeyMatchKMHash reports a match although the BPM signer's key is not the key whose hash the KM holds as BPM key hash (same key = %v, hash recognised = %v, KMHasBPMHash = %v): a comparison was skipped and reported as a match", *expectSame, !refused, has), "bootguard.BPMKeyMatchKMHash", input())
 	default:
-		c.OracleFail(idx, fmt.Sprintf("binding check wrong: BPM signer key is the key hashed into the KM = %v (hash recognised = %v), but KMHasBPMHash = %v and BPMKeyMatchKMHash = %v", *expectSame, !refused, has, mt), "bootguard.BPMKeyMatchKMHash", descr)
+		c.OracleFail(idx, fmt.Sprintf("binding check wrong: BPM signer key is the key hashed into the KM = %v (hash recognised = %v), but KMHasBPMHash = %v and BPMKeyMatchKMHash = %v", *expectSame, !refused, has, mt), "bootguard.BPMKeyMatchKMHash", input())
 	}
 }
 
 func (r *run) binding() {
 	c := r.c
 	rg := c.Rng
-	names := []string{"A", "B", "C"}
-	if c.Thorough() {
-		names = append(names, "D", "E")
-	}
+	// both key sizes in every tier (KM key A is RSA-2048: x = D, E are the mixed-size pairs)
+	names := []string{"A", "B", "C", "D", "E"}
 	tr, fa := true, false
 	bp := func(v bool) *bool {
 		if v {
@@ -138,8 +144,14 @@ func (r *run) binding() {
 			}
 		}
 	}
+	// quick tier: the same key for every key, a ring of different keys, and the pairs
+	// that differ in SIZE both ways; thorough: all 25 pairs
+	quickPairs := map[string]bool{"AB": true, "BC": true, "CD": true, "DE": true, "EA": true, "BA": true, "ED": true, "BE": true, "DA": true, "EB": true}
 	for _, x := range names {
 		for _, y := range names {
+			if !c.Thorough() && x != y && !quickPairs[x+y] {
+				continue
+			}
 			// BG 1.0
 			for _, alg := range []string{"SHA256", "SHA1"} {
 				km, _, err := buildBgKM(rg, pubOf(r.keys["A"]), pubOf(r.keys[x]), alg)
@@ -149,7 +161,8 @@ func (r *run) binding() {
 				// GetBPMPubHash itself: the stored digest is H(alg, modulus little endian)
 				want, _ := stdHash(hashID(alg), reverse(r.keys[x].N.Bytes()))
 				if !bytes.Equal(km.VData.BGkm.BPKey.HashBuffer, want) || int(km.VData.BGkm.BPKey.HashAlg) != hashID(alg) {
-					c.OracleFail(-1, "GetBPMPubHash (BG 1.0) does not store H(alg, modulus)", "bootguard.GetBPMPubHash", map[string]interface{}{"key": x, "alg": alg})
+					c.OracleFail(-1, fmt.Sprintf("GetBPMPubHash (BG 1.0) on an RSA-%d key does not store H(%s, modulus): the key manifest holds another digest", r.keys[x].N.BitLen(), alg), "bootguard.GetBPMPubHash",
+						map[string]interface{}{"gen": 1, "key": x, "key_bits": r.keys[x].N.BitLen(), "hash_name": alg, "key_data_hex": hexs(keyDataOf(pubOf(r.keys[x]))), "expected_digest_hex": hexs(want), "stored": kmStateLit(km)})
 				} else {
 					c.OracleOK()
 				}
@@ -161,7 +174,7 @@ func (r *run) binding() {
 			}
 			// CBnT
 			for ai, alg := range []string{"SHA256", "SHA384", "SM3", "SHA1"} {
-				if !c.Thorough() && ai >= 2 && x != y && !(x == "A" && y == "B") {
+				if !c.Thorough() && ai >= 2 && x != y && !(x == "A" && y == "B") && !(x == "D" && y == "E") && !(x == "E" && y == "B") {
 					continue
 				}
 				km, _, err := buildCbntKM(rg, pubOf(r.keys["A"]), pubOf(r.keys[x]), cbnt.AlgSHA256, alg, ai%3)
@@ -176,7 +189,8 @@ func (r *run) binding() {
 					}
 				}
 				if !found {
-					c.OracleFail(-1, "GetBPMPubHash (CBnT) does not store H(alg, modulus) with usage BPM", "bootguard.GetBPMPubHash", map[string]interface{}{"key": x, "alg": alg})
+					c.OracleFail(-1, fmt.Sprintf("GetBPMPubHash (CBnT) on an RSA-%d key does not store H(%s, modulus) with usage BPM", r.keys[x].N.BitLen(), alg), "bootguard.GetBPMPubHash",
+						map[string]interface{}{"gen": 2, "key": x, "key_bits": r.keys[x].N.BitLen(), "hash_name": alg, "key_data_hex": hexs(keyDataOf(pubOf(r.keys[x]))), "expected_digest_hex": hexs(want), "stored": kmStateLit(km)})
 				} else {
 					c.OracleOK()
 				}
@@ -217,27 +231,40 @@ func (r *run) binding() {
 		}
 	}
 	// through files, as bg-suite does it (NewBPMAndKM on the FIT entries)
+	perKind := map[string]int{}
 	for _, sf := range r.signed {
 		if sf.doc != 0 || sf.by != "suite" || !sf.verifies {
 			continue
 		}
+		kind := fmt.Sprintf("%d/%v/%v", sf.gen, sf.desc["key"], sf.desc["bpmkey"])
+		if perKind[kind] >= c.Scale(3, 1000) {
+			continue
+		}
+		perKind[kind]++
+		seenKey := map[string]bool{}
 		for _, sp := range r.signed {
 			if sp.doc != 1 || sp.gen != sf.gen || sp.by != "suite" || !sp.verifies {
+				continue
+			}
+			// one BPM file per signer key: the key the KM was made for, and the others
+			k := fmt.Sprint(sp.desc["key"])
+			if seenKey[k] {
 				continue
 			}
 			both, err := bootguard.NewBPMAndKM(bytes.NewReader(sp.file), bytes.NewReader(sf.file))
 			if err != nil {
 				continue
 			}
-			// KM files of signAll carry the hash of the matching BPM key (A->B, D->E)
-			same := (sf.desc["key"] == "A" && sp.desc["key"] == "B") || (sf.desc["key"] == "D" && sp.desc["key"] == "E")
+			seenKey[k] = true
+			// the KM files carry the digest of the BPM key they were made for (desc "bpmkey")
+			placedKey, has := sf.desc["bpmkey"]
+			same := has && placedKey == sp.desc["key"]
 			refused := sf.desc["bpmhash"] == "SHA1" && sf.gen == 1
 			exp := bp(same)
-			if n, ok := sf.desc["hashes"].(int); ok && n == 0 {
+			if !has {
 				exp = nil // a KM without hashes: nothing was placed in it
 			}
-			r.bindCase(both, map[string]interface{}{"km_file": sf.name, "bpm_file": sp.name}, exp, refused)
-			break
+			r.bindCase(both, map[string]interface{}{"km_file": sf.name, "bpm_file": sp.name, "km_hash_of": placedKey, "bpm_signed_by": sp.desc["key"]}, exp, refused)
 		}
 	}
 	// hand-made hash structures: no statement by the property, model correspondence only
